@@ -23,7 +23,12 @@ def check(rep, tier, seed):
     # the retry loop's rewrites also allocate revisions that must be resolved (every repair outcome)
     from . import c09
     pl = c09.placements()
-    rcases = [c09.gen_case(seed, 5000 + i, ENGINES[i % 3], pl[(i * 7) % len(pl)]) for i in range(9 if tier == "quick" else 126)]
+    if tier == "quick":
+        # every verb x every repair outcome, the first write applied-but-unknown (the repair then has work to do)
+        sel = [p for p in pl if p[1] == "ua"]
+        rcases = [c09.gen_case(seed, 5000 + i, ["memkv", "tikv"][i % 2], p) for i, p in enumerate(sel)]
+    else:
+        rcases = [c09.gen_case(seed, 5000 + i, ENGINES[i % 3], pl[i % len(pl)]) for i in range(126)]
     for c in rcases:
         c.meta["retry"] = True
     cases += rcases
@@ -31,9 +36,7 @@ def check(rep, tier, seed):
     for c in cases:
         rep.count_case(c)
         if c.meta.get("retry"):
-            hit = c09.oracle(c)
-            if hit and hit[1] != "stalled":
-                hit = None
+            hit = c09.oracle(c, only="stalled")
         else:
             hit = sched.oracle_c04(c)
         if hit:
